@@ -161,6 +161,9 @@ class World:
     def step(self, force_transfer=False):
         r = self.r
         k = r.random()
+        if self.mode == "codegen" and not force_transfer:
+            # every change is followed by a transfer anyway (see one()); half of the changes are option flips
+            k = r.uniform(0.4, 1.0) if r.random() < 0.5 else r.uniform(0.84, 0.94)
         if force_transfer or k < 0.4:
             return self.op_transfer("cache")
         if self.no_mtime and k < 0.77:
@@ -349,12 +352,15 @@ def one(ctx, rng, k, mode="cache"):
     saved = (pymoca.__version__, api.__version__)
     try:
         w = World(ctx, rng, root, mode)
-        n = rng.randint(3, 8) if mode == "cache" else rng.randint(2, 4)
+        n = rng.randint(3, 8) if mode == "cache" else rng.randint(2, 3)
         bad = w.op_transfer("cache")
         i = 0
         while bad is None and i < n:
             bad = w.step()
             i += 1
+            if mode == "codegen" and bad is None and w.ops[-1][0] != "transfer":
+                # compiling is expensive: every change is followed by a transfer at once (change, transfer, change, ...)
+                bad = w.op_transfer("cache")
         if bad is None:
             bad = w.step(force_transfer=True)
         changes = any(o[0] != "transfer" for o in w.ops)
